@@ -77,7 +77,19 @@ class Module:
         self.relpath = relpath
         self.src = src
         self.tree = ast.parse(src, filename=path)
-        for parent in ast.walk(self.tree):
+        self.inlined = []
+        if not os.environ.get("VERIF_NO_ALPHA"):
+            from . import alpha, normalise
+            self.tree = normalise.lower_ifexp(self.tree)
+            known = alpha.baseline().get("__functions__")
+            if known:
+                self.inlined = normalise.inline_new_helpers(name, self.tree, set(known))
+            ast.fix_missing_locations(self.tree)
+        self.link_parents(self.tree)
+
+    @staticmethod
+    def link_parents(root):
+        for parent in ast.walk(root):
             for child in ast.iter_child_nodes(parent):
                 child._parent = parent
 
@@ -154,10 +166,32 @@ class Repo:
                         q = f"{q}#{k}"
                         fi.qualname = q
                     self.funcs[q] = fi
-                    from . import alpha
+                    from . import alpha, normalise
+                    base0 = alpha.baseline()
+                    if base0 and not os.environ.get("VERIF_NO_ALPHA") and q in set(base0.get("__functions__", ())) \
+                            and normalise.count_comprehensions(child) > base0.get("__comprehensions__", {}).get(q, 0):
+                        if normalise.lower_comprehensions(child):
+                            ast.fix_missing_locations(child)
+                            Module.link_parents(child)
+                            child._parent = node
+                            self.renamed.setdefault(q, {})["<comprehension>"] = "<loop>"
                     mp = alpha.normalise_function(q, child)
                     if mp:
                         self.renamed[q] = mp
+                    base = alpha.baseline()
+                    if base and not os.environ.get("VERIF_NO_ALPHA"):
+                        if q in base:
+                            reviewed = {n for n, _s in base[q]}
+                        elif q in set(base.get("__functions__", ())):
+                            reviewed = set()
+                        else:
+                            reviewed = None
+                        al = normalise.inline_new_aliases(child, reviewed)
+                        if al:
+                            self.renamed.setdefault(q, {}).update({a: "<inlined>" for a in al})
+                            ast.fix_missing_locations(child)
+                            Module.link_parents(child)
+                            child._parent = node
                     if cls is not None and parent is None and child.name not in cls.methods:
                         cls.methods[child.name] = fi
                     visit(child, q, cls, fi)
